@@ -161,6 +161,14 @@ func genC10(t *rapid.T) Case {
 		}
 		c.Progs = []Prog{reader, writer}
 		n = 2
+		if rapid.Bool().Draw(t, "churnOps") {
+			// operation-aligned: reader opens, writer runs a few operations, the reader's next
+			// operation is pre-empted at a drawn yield while the writer runs one or two more
+			c.Sched = SchedSpec{Kind: "ops",
+				OpSegs: [][2]int{{0, 1}, {1, rapid.IntRange(1, 3).Draw(t, "wOps")}, {0, 4}, {1, 9}},
+				Pre:    [][5]int{{0, rapid.IntRange(1, 2).Draw(t, "rOp"), rapid.IntRange(0, 12).Draw(t, "rYield"), 1, rapid.IntRange(1, 2).Draw(t, "wOps2")}}}
+			return c
+		}
 		c.Sched = SchedSpec{Kind: "segments"}
 		for i := 0; i < rapid.IntRange(3, 9).Draw(t, "nsegsC"); i++ {
 			steps := rapid.IntRange(0, 12).Draw(t, "segStepsC")
